@@ -1,3 +1,78 @@
-import RelicVerif.Spec.Curve
+/-
+C03 — every scalar multiplication equals [k]P (algorithm level).
+The loops of Model/MulAlg.lean mirror ep_mul_basic / slide / monty / lwnaf / lwreg, ep_mul_fix_basic,
+ep_mul_sim_trick / inter / joint. Over an arbitrary additive commutative group they compute the integer
+their recoding denotes times the base point; combined with the recoding theorems of C09 this is k • P for
+every integer k and every point of a group killed by n.
+The coordinate-system formulas (add/dbl in affine, projective, Jacobian coordinates) are compared with the
+affine group law by the correspondence run; see DESIGN.md for the translator tie.
+-/
+import RelicVerif.Lemmas.MulAlg
+
 namespace Relic.Props.C03
+open Relic.Model Relic.Model.MulAlg
+
+variable {G : Type} [AddCommGroup G]
+
+/-- ep_mul_lwnaf / ep_mul_fix_lwnaf on plain curves: reduce k modulo n, recode in width-w NAF, table of odd
+    multiples, signed left-to-right loop, final negation for k < 0 is inside `k % n`. Any integer k. -/
+theorem mul_lwnaf_correct (p : G) (n : Nat) (hn0 : 0 < n) (hn : (n : ℤ) • p = 0) (k : ℤ) (w : Nat) (hw : 2 ≤ w)
+    (cap : Nat) (ds : List Int) (h : Rec.recNaf cap (k % n).toNat w = some ds) :
+    mulSigned gops (tabOdd gops p (2 ^ (w - 2))) 0 ds = k • p := by
+  sorry
+
+/-- ep_mul_basic: binary NAF (w = 2) with the one-entry table [P], sign applied at the end -/
+theorem mul_basic_correct (p : G) (k : ℤ) (cap : Nat) (ds : List Int) (h : Rec.recNaf cap k.natAbs 2 = some ds) :
+    (if k < 0 then -(mulSigned gops [p] 0 ds) else mulSigned gops [p] 0 ds) = k • p := by
+  sorry
+
+/-- ep_mul_slide: reduce modulo n, sliding windows of width w, table of odd multiples up to 2^w - 1 -/
+theorem mul_slide_correct (p : G) (n : Nat) (hn0 : 0 < n) (hn : (n : ℤ) • p = 0) (k : ℤ) (w : Nat) (hw : 1 ≤ w)
+    (cap : Nat) (win : List Int) (h : Rec.recSlw cap (k % n).toNat w = some win) :
+    mulSlide gops (tabOdd gops p (2 ^ (w - 1))) 0 win = k • p := by
+  sorry
+
+/-- ep_mul_monty: l = (k mod n) + n or + 2n, whichever has exactly bits(n) + 1 bits; ladder over its lower bits -/
+theorem mul_monty_correct (p : G) (n : Nat) (hn : (n : ℤ) • p = 0) (k : ℤ) (l : Nat) (hl : (l : ℤ) % n = k % n)
+    (bits : List Bool) (hbits : (2 ^ bits.length + bitsVal bits : ℤ) = l) :
+    mulLadder gops p bits = k • p := by
+  sorry
+
+/-- ep_mul_lwreg on plain curves (after the repair): regular recoding of (|k| mod n) | 1, parity correction,
+    sign applied at the end -/
+theorem mul_lwreg_correct (p : G) (n : Nat) (hn0 : 0 < n) (hn : (n : ℤ) • p = 0) (k : ℤ) (w nb : Nat) (hw : 3 ≤ w)
+    (hnb : n < 2 ^ nb) (cap : Nat) (reg : List Int)
+    (h : Rec.recReg cap ((k.natAbs % n) ||| 1) nb w = some reg) :
+    let r := mulReg gops (tabOdd gops p (2 ^ (w - 2))) 0 w reg ((k.natAbs % n) % 2 = 0) p
+    (if k < 0 then -r else r) = k • p := by
+  sorry
+
+/-- ep_mul_fix_basic: precomputed 2^i·P, one addition per set bit of k mod n -/
+theorem mul_fix_basic_correct (p : G) (n : Nat) (hn0 : 0 < n) (hn : (n : ℤ) • p = 0) (k : ℤ) (nb : Nat) (hnb : n < 2 ^ nb) :
+    mulFixBasic gops (tabPow2 gops p nb) 0 (k % n).toNat = k • p := by
+  sorry
+
+/-- ep_mul_sim_trick: both scalars reduced modulo n, fixed windows of width w, table of i·P + j·Q -/
+theorem mul_sim_trick_correct (p q : G) (n : Nat) (hn0 : 0 < n) (hp : (n : ℤ) • p = 0) (hq : (n : ℤ) • q = 0) (k m : ℤ) (w : Nat) (hw : 0 < w)
+    (cap : Nat) (w0 w1 : List Int) (hk : 0 < (k % n).toNat) (hm : 0 < (m % n).toNat)
+    (h0 : Rec.recWin cap (k % n).toNat w = some w0) (h1 : Rec.recWin cap (m % n).toNat w = some w1) :
+    simTrick gops (tabTrick gops p q w) 0 w w0 w1 = k • p + m • q := by
+  sorry
+
+/-- ep_mul_sim_inter (plain curves): two width-w NAFs interleaved -/
+theorem mul_sim_inter_correct (p q : G) (n : Nat) (hn0 : 0 < n) (hp : (n : ℤ) • p = 0) (hq : (n : ℤ) • q = 0) (k m : ℤ) (w : Nat) (hw : 2 ≤ w)
+    (cap : Nat) (n0 n1 : List Int)
+    (h0 : Rec.recNaf cap (k % n).toNat w = some n0) (h1 : Rec.recNaf cap (m % n).toNat w = some n1) :
+    simInter gops (tabOdd gops p (2 ^ (w - 2))) (tabOdd gops q (2 ^ (w - 2))) 0 n0 n1 = k • p + m • q := by
+  sorry
+
+/-- ep_mul_sim_joint: joint sparse form of (k mod n, m mod n) -/
+theorem mul_sim_joint_correct (p q : G) (n : Nat) (hn0 : 0 < n) (hp : (n : ℤ) • p = 0) (hq : (n : ℤ) • q = 0) (k m : ℤ)
+    (cap : Nat) (j0 j1 : List Int) (h : Rec.recJsf cap (k % n).toNat (m % n).toNat = some (j0, j1)) :
+    simJoint gops p q j0 j1 = k • p + m • q := by
+  sorry
+
+/-- non-vacuity: the loops run on the integers (an additive commutative group) -/
+example : mulSigned (gops : Ops ℤ) (tabOdd gops 1 4) 0 [7, 0, 0, 0, 0, -5] = -153 := by decide
+
 end Relic.Props.C03
